@@ -27,8 +27,9 @@ def model_check(ctx, prop):
         runs += [("MC_Scanner", "MC_Scanner_en_thorough.cfg"), ("MC_Scanner", "MC_Scanner_en_thorough_hints.cfg")]
         runs += [("MC_Scanner", "MC_Scanner_%s_thorough.cfg" % l) for l in ["fr", "de", "es", "it", "nl", "pt"]]
         vlib.model_check_many(ctx, runs, workers_each=4, heap="6g")
-    if prop in ("C07",):
-        vlib.mutant_refuted(ctx, "MC_Scanner", os.path.join(vlib.SPEC, "MC_Scanner_en_mut_shift.cfg"), "Bug_ShiftNonAtomic")
+    MUT = {"C07": ["en_mut_shift"], "C09": ["en_mut_thr", "en_mut_hold"], "C06": ["en_mut_hold"], "C02": ["en_mut_hold"], "C15": ["nl_mut_retry"]}
+    for m in MUT.get(prop, []):
+        vlib.mutant_refuted(ctx, "MC_Scanner", os.path.join(vlib.SPEC, "MC_Scanner_%s.cfg" % m), m)
 
 
 def spell_mc(ctx, ordinals=False):
